@@ -55,6 +55,27 @@ const classPE = "dotnet/pe|overrun:clr_row_counts"
 // classBplistCycle: groob/plist follows binary-plist object references without a cycle check.
 const classBplistCycle = "os/macapps|fatal:bplist_reference_cycle"
 
+// classNesting: gopkg.in/yaml.v3 and BurntSushi/toml take quadratic time and memory in the
+// nesting depth (5000 nested YAML mappings, 20 KB: 13 s / 5.5 GiB; 10000 nested TOML inline
+// tables, 33 KB: 10 s / 7.5 GiB).
+const classNesting = "c02.deep_nesting_quadratic"
+
+// classMacOverrun: groob/plist trusts the element counts of binary-plist strings / data / arrays
+// (make([]uint16, count) ...): a 1.2 KB Info.plist allocates tens of GiB and runs for minutes.
+const classMacOverrun = "os/macapps|overrun:bplist_counts"
+
+// overrunClass: extractors with a known overrun finding that cannot be recognised from the
+// input: while the class is known their cases get a 3 s deadline and an overrun is counted
+// under the class (count and continue, like the panic call sites).
+var overrunClass = map[string]string{"dotnet/pe": classPE, "os/macapps": classMacOverrun}
+
+// tomlExtractors decode their input with BurntSushi/toml.
+var tomlExtractors = map[string]bool{"python/pdmlock": true, "python/poetrylock": true, "python/uvlock": true, "rust/cargolock": true, "rust/cargotoml": true}
+
+// maxNestKnown is the deepest nesting the nest mutator makes for YAML / TOML extractors while
+// classNesting is a known finding.
+const maxNestKnown = 1000
+
 // yamlExtractors decode their input with gopkg.in/yaml.v3.
 var yamlExtractors = map[string]bool{"dart/pubspec": true, "javascript/pnpmlock": true, "os/snap": true, "swift/podfilelock": true}
 
@@ -257,6 +278,12 @@ func genC02(t *rapid.T) c02Case {
 	generating.Store(true)
 	reg := Registry()
 	e := reg[upick(t, "extractor", len(reg))]
+	if only := os.Getenv("C02_ONLY"); only != "" {
+		// focused campaign on one extractor (triage / sensitivity runs)
+		if o := Lookup(only); o != nil {
+			e = o
+		}
+	}
 	c := c02Case{Leg: "mutants", Extractor: e.Name}
 	useRaw := len(e.Fixtures) == 0 || rapid.IntRange(0, 19).Draw(t, "rawseed") == 0
 	if useRaw {
@@ -287,6 +314,14 @@ func genC02(t *rapid.T) c02Case {
 			if m := &c.Muts[i]; m.Op == "repeat" && 1<<uint(1+mod(m.B, 12)) > maxRepeatKnown {
 				col.Excluded(classYAMLDup)
 				m.B = mod(m.B, 6) // at most 2^6 copies
+			}
+		}
+	}
+	if (yamlExtractors[e.Name] || tomlExtractors[e.Name]) && col.IsKnown(classNesting) {
+		for i := range c.Muts {
+			if m := &c.Muts[i]; m.Op == "nest" && 1+mod(m.B, 60000) > maxNestKnown {
+				col.Excluded(classNesting)
+				m.B = maxNestKnown - 1
 			}
 		}
 	}
@@ -631,16 +666,20 @@ func propC02(c c02Case) (ev.Outcome, error) {
 				explorePrint("fatal", classBplistCycle, "stack overflow", c)
 				return out, nil
 			}
-			return out, fmt.Errorf("Extract of %s on %s (%d bytes, binary plist with a reference cycle) kills the process with a fatal runtime error:\n%s", c.Extractor, c.Path, len(data), tail)
+			return out, fmt.Errorf("Extract of %s on %s (%d bytes, binary plist with a reference cycle) kills the process with a fatal runtime error:\n%s", c.Extractor, c.Path, len(data), clip(tail))
 		}
 		return out, nil
 	}
 
+	knownOverrun := ""
+	if oc := overrunClass[c.Extractor]; oc != "" && col.IsKnown(oc) && !witness && !explore {
+		knownOverrun = oc
+	}
 	deadline := wallBudget + 2*time.Second
 	switch {
 	case explore:
 		deadline = 4 * time.Second
-	case c.Extractor == "dotnet/pe" && col.IsKnown(classPE) && !witness:
+	case knownOverrun != "":
 		deadline = 3 * time.Second // known finding: count and continue without paying the full budget
 	}
 	r, status, tail, err := execute(c, deadline)
@@ -652,12 +691,21 @@ func propC02(c c02Case) (ev.Outcome, error) {
 		result("fatal")
 		out.NonTrivial = true
 		_, died, isoTail := runIsolated(c)
+		if !died && knownOverrun != "" {
+			col.Excluded(knownOverrun) // died under the memory pressure of the campaign only
+			return out, nil
+		}
 		if !died {
 			col.Note("execution server died on %s %s but the case does not kill an isolated process (inconclusive, not a violation); server output: %.300s", c.Extractor, c.Path, tail)
 			out.Classes = append(out.Classes, "fatal_unconfirmed")
 			return out, nil
 		}
 		class := siteClass(c.Extractor, "fatal:"+fatalSite(isoTail))
+		if knownOverrun != "" && fatalSite(isoTail) == "out_of_memory" {
+			// the known allocation blow-up, this time refused by the kernel
+			col.Excluded(knownOverrun)
+			return out, nil
+		}
 		if explore {
 			explorePrint("fatal", class, isoTail[:min(len(isoTail), 300)], c)
 			return out, nil
@@ -666,7 +714,7 @@ func propC02(c c02Case) (ev.Outcome, error) {
 			col.Excluded(class)
 			return out, nil
 		}
-		return out, fmt.Errorf("Extract of %s on %s (%d bytes) kills the process with a fatal runtime error (not recoverable: it aborts the whole scan); reproduced in isolation:\n%s", c.Extractor, c.Path, len(data), isoTail)
+		return out, fmt.Errorf("Extract of %s on %s (%d bytes) kills the process with a fatal runtime error (not recoverable: it aborts the whole scan); reproduced in isolation:\n%s", c.Extractor, c.Path, len(data), clip(isoTail))
 	case execTimeout:
 		result("overrun")
 		out.NonTrivial = true
@@ -674,8 +722,8 @@ func propC02(c c02Case) (ev.Outcome, error) {
 			explorePrint("overrun", c.Extractor, fmt.Sprintf("no answer within %v, %d bytes", deadline, len(data)), c)
 			return out, nil
 		}
-		if c.Extractor == "dotnet/pe" && col.IsKnown(classPE) && !witness {
-			col.Excluded(classPE)
+		if knownOverrun != "" {
+			col.Excluded(knownOverrun)
 			return out, nil
 		}
 		confirmed, detail := confirmIsolated(c)
@@ -730,8 +778,8 @@ func propC02(c c02Case) (ev.Outcome, error) {
 			explorePrint("overrun", c.Extractor, what, c)
 			return out, nil
 		}
-		if c.Extractor == "dotnet/pe" && col.IsKnown(classPE) && !witness {
-			col.Excluded(classPE)
+		if knownOverrun != "" {
+			col.Excluded(knownOverrun)
 			return out, nil
 		}
 		confirmed, detail := confirmIsolated(c)
@@ -823,6 +871,12 @@ func checkContainment(e *extInfo, c c02Case, data []byte) error {
 // innermost function of the repository on the crashing goroutine's stack or, when the goroutine
 // was started by a dependency, its innermost non-runtime function.
 func fatalSite(out string) string {
+	switch {
+	case strings.Contains(out, "fatal error: runtime: out of memory"), strings.Contains(out, "cannot allocate memory"):
+		return "out_of_memory"
+	case strings.Contains(out, "fatal error: stack overflow"):
+		return "stack_overflow"
+	}
 	i := strings.Index(out, "\ngoroutine ")
 	if i < 0 {
 		return "(unknown)"
@@ -907,16 +961,24 @@ func runIsolated(c c02Case, extraEnv ...string) (res isoResult, died bool, tail 
 			return res, false, ""
 		}
 	}
-	if len(out) > 3000 {
-		out = out[:1500] + "\n...\n" + out[len(out)-1500:]
+	if len(out) > 1<<16 {
+		out = out[:1<<15] + "\n...\n" + out[len(out)-(1<<15):]
 	}
 	return res, true, out
+}
+
+// clip shortens process output for messages.
+func clip(s string) string {
+	if len(s) > 3000 {
+		return s[:1500] + "\n...\n" + s[len(s)-1500:]
+	}
+	return s
 }
 
 func confirmIsolated(c c02Case) (bool, string) {
 	res, died, tail := runIsolated(c)
 	if died {
-		return true, "the isolated process died: " + tail
+		return true, "the isolated process died: " + clip(tail)
 	}
 	d := time.Duration(res.DurMS) * time.Millisecond
 	detail := fmt.Sprintf("wall %v, allocated %d MiB", d, res.AllocMiB)
